@@ -159,11 +159,19 @@ def check_C16(c):
         for xtop in c.rng.sample([None, 'a', 'b', 'z', ''], 2):
             mk = dict(model='custom', mdl=c.rng.choice(CUSTOM)) if c.rng.random() < 0.15 else dict(model=c.rng.choice(['default', 'amr', 'miniamr']))
             jobs.append(('tr_errors', dict(tr=tr, xtop=xtop, **mk)))
+    # (2b) graphs with more nodes than the call is given stack frames: a chain and a comb of 400 nodes, connected and with a loose end
+    for n, shape in ((400, 'chain'), (400, 'comb'), (300, 'chain-broken')):
+        big = []
+        for i in range(n):
+            big.append(['v%d' % i, ':instance', 'c'])
+            if i + 1 < n and not (shape == 'chain-broken' and i == 700):
+                big.append(['v%d' % i, ':ARG0', 'v%d' % (i + 1)] if shape != 'comb' or i % 2 == 0 else ['v%d' % (i + 1), ':ARG1', 'v%d' % i])
+        jobs.append(('tr_errors', dict(tr=big, xtop='v0', model='amr', headroom=150)))
     # (3) decoded graphs (non-empty top node): only role errors possible
     for model in ('amr', 'miniamr', 'default'):
         for text in _stream_trees(c, _q(c, 300, 6000), model):
             jobs.append(('tr_errors', dict(tr=None, decoded_from=text, model=model)))
-    traces = pmake(jobs, procs=12)
+    traces = pmake(jobs, procs=12, optimized_share=0.03)
     cli = [t for t in traces if t['kind'] == 'check']
     err = [t for t in traces if t['kind'] == 'errors']
     c.judge('J_Cli', cli, 'check-cli', nontrivial=lambda t: sum(len(x) for x in t['inputs']) >= 1)
